@@ -169,10 +169,9 @@ def gen_std_program(rng):
     have = prelude_have()
     lines = []
     for _ in range(rng.randrange(1, 7)):
-        cands = [i for i in c06.STD_ITEMS if all(r in have for r in i[1]) and not (i[3] and all(p in have for p in i[2]))
-                 and "ans" not in i[1]]
+        cands = c06.usable_items(have)
         it = rng.choice(cands)
-        have.update(it[2])
+        c06.item_apply(have, it)
         lines.append(it[0])
     kind = None
     if rng.random() < 0.55:
